@@ -28,6 +28,7 @@ extern struct sockaddr_storage inj_from;
 extern socklen_t inj_fromlen;
 extern int inj_dest_family;		/* 4: recvmsg() reports inj_dest4 as the IPv4 destination address */
 extern unsigned char inj_dest4[4];
+extern unsigned char inj_dest6[16];	/* inj_dest_family 6: the IPv6 destination address recvmsg() reports */
 extern int inj_residue;			/* -1: leave the caller's buffer alone; else fill byte pattern id */
 void inj_set(const unsigned char *d, int len);
 void residue_fill(unsigned char *buf, size_t cap, int pattern);
